@@ -30,7 +30,7 @@ RULE = ("every top-level class of both versions (embedded types, extensions and 
 ASSUMPTIONS = [
     "timestamps with more than six fractional digits are not generated here (their refusal is recorded under C03)",
     "lone surrogates are not generated",
-    "pretty order is judged at top level only, and only when sort_keys is not requested as well: specification-defined keys in specification order, keys the specification does not define (custom, toplevel-extension) after them",
+    "pretty order is judged at top level only (with or without sort_keys, which pretty is documented to override): specification-defined keys in specification order, keys the specification does not define (custom, toplevel-extension) after them",
 ]
 VERSIONS = ["2.0", "2.1"]
 
@@ -191,12 +191,16 @@ def check_object(ctx, obj, version, route, rng, full_lattice=False, type_name=No
             ctx.violation("options-denote-different-value", "%s %s: option set %r denotes a different JSON value: %s %s %s" % (
                 version, type_name, kw, diffs[0][0], diffs[0][1], str(diffs[0][2])[:120]),
                 {"version": version, "options": kw, "default_text": base_text[:2500], "this_text": text[:2500], "differences": diffs[:4]})
-        if o["pretty"] and not o["sort_keys"]:
+        if o["pretty"]:
+            # (whatever else is asked for: pretty=True is documented to override sort_keys, and the property quantifies over
+            # every combination of options)
             keys = [k for k, _ in j]
             ok, seq = spec_order_ok(version, type_name, keys)
             ctx.count("pretty_orders_checked")
+            if o["sort_keys"]:
+                ctx.count("pretty_orders_checked_with_sort_keys")
             if not ok:
-                ctx.violation("pretty-order", "%s %s: pretty output not in specification order" % (version, type_name),
+                ctx.violation("pretty-order" + (":with-sort-keys" if o["sort_keys"] else ""), "%s %s: pretty output not in specification order" % (version, type_name),
                               {"version": version, "options": kw, "keys_in_output": keys})
         ctx.see("option sets", json.dumps(kw, sort_keys=True))
     # str() and fp_serialize
@@ -549,6 +553,8 @@ def floors(m, tier):
             out.append("%d of %d registered classes never round-tripped: %s" % (len(miss), len(exp), ", ".join(miss[:8])))
     except Exception as e:
         out.append("class census failed: %r" % (e,))
+    if c.get("pretty_orders_checked_with_sort_keys", 0) < 50:
+        out.append("pretty order checked together with sort_keys fewer than 50 times")
     if c.get("pretty_orders_checked", 0) < 200:
         out.append("pretty order checked fewer than 200 times")
     if c.get("construction_refused", 0) > 0.3 * sum(v for k, v in c.items() if k.startswith("cases:")):
